@@ -93,6 +93,7 @@ Init == smp \in Samples /\ h = Null /\ bnd = Null /\ done = FALSE
 ChooseH == h = Null /\ \E hh \in Hs : h' = hh /\ UNCHANGED <<smp, bnd, done>>
 ChooseB == /\ h # Null /\ bnd = Null /\ UNCHANGED <<smp, h, done>>
            /\ \E b \in Bounds : LET r == Resolve(smp, b) IN
+                /\ (b.kind = "both" => r.hi > r.lo)                                \* a proper interval
                 /\ (b.kind = "both" => NImg(smp, r, 40 * EpReach(h)) <= 1500)      \* keep the image list finite
                 /\ bnd' = r
 Finish == bnd # Null /\ ~done /\ done' = TRUE /\ UNCHANGED <<smp, h, bnd>>
@@ -142,13 +143,15 @@ Emit == done =>
                  pts |-> {PointRec(x) : x \in Queries(smp, bnd)}]))
 
 SamplesQuick == {[xs |-> <<4>>, ws |-> <<>>], [xs |-> <<0, 8>>, ws |-> <<>>], [xs |-> <<8, 0, 4>>, ws |-> <<1, 2, 3>>],
-                 [xs |-> <<4, 8, 12>>, ws |-> <<>>], [xs |-> <<16, 3, 3, 9>>, ws |-> <<>>], [xs |-> <<2, 13>>, ws |-> <<3, 1>>]}
+                 [xs |-> <<4, 8, 12>>, ws |-> <<>>], [xs |-> <<16, 3, 3, 9>>, ws |-> <<>>], [xs |-> <<2, 13>>, ws |-> <<3, 1>>],
+                 [xs |-> <<0, 0, 0, 0, 0, 0, 4>>, ws |-> <<>>]}      \* heavily tied: both quartiles coincide, the spread does not vanish
 SamplesThorough == SamplesQuick \cup {[xs |-> <<0, 1, 2, 3, 16>>, ws |-> <<>>], [xs |-> <<5, 5, 5>>, ws |-> <<>>],
                  [xs |-> <<12, 0, 7, 7, 20>>, ws |-> <<2, 1, 1, 4, 1>>], [xs |-> <<-8, 8>>, ws |-> <<>>], [xs |-> <<1, 2, 4, 8, 16>>, ws |-> <<5, 4, 3, 2, 1>>]}
 HsQuick == {<<1, 2>>, <<1, 1>>, <<2, 1>>, <<5, 1>>, <<50, 1>>}
 HsThorough == HsQuick \cup {<<1, 4>>, <<3, 2>>, <<3, 1>>, <<10, 1>>}
 BoundsQuick == {[kind |-> "none", a |-> 0, b |-> 0], [kind |-> "lo", a |-> 0, b |-> 0], [kind |-> "lo", a |-> 6, b |-> 0],
-                [kind |-> "hi", a |-> 0, b |-> 1], [kind |-> "hi", a |-> 0, b |-> 8],
+                [kind |-> "hi", a |-> 0, b |-> 1], [kind |-> "hi", a |-> 0, b |-> 8], [kind |-> "hi", a |-> 0, b |-> 0],      \* b = 0: the upper boundary touches the largest value
+                [kind |-> "both", a |-> 0, b |-> 0],
                 [kind |-> "both", a |-> 0, b |-> 1], [kind |-> "both", a |-> 2, b |-> 4], [kind |-> "both", a |-> 40, b |-> 60]}
 BoundsThorough == BoundsQuick \cup {[kind |-> "lo", a |-> 80, b |-> 0], [kind |-> "hi", a |-> 0, b |-> 80], [kind |-> "both", a |-> 1, b |-> 1],
                 [kind |-> "both", a |-> 12, b |-> 3], [kind |-> "both", a |-> 200, b |-> 200]}
